@@ -104,9 +104,10 @@ Definition values_expressible (v : Z) (vs : list qvalue) : bool :=
   (no_names vs || ((3 <=? v) && all_names vs))
   && ((4 <=? v) || forallb (fun q => negb (qv_unset q)) vs).
 
-(* optional query parameters exist from v2 (timestamp and names from v3); a page size is an [int] *)
+(* optional query parameters exist from v2 (timestamp and names from v3, keyspace from v5); a page size is an [int] *)
 Definition params_expressible (v : Z) (execute : bool) (p : qparams) : bool :=
   (qp_page_size p <? 2 ^ 31)
+  && ((5 <=? v) || negb (nonempty (qp_keyspace p)))
   && (if v =? 1 then
         (execute || negb (nonempty (qp_values p))) && no_names (qp_values p)
         && forallb (fun q => negb (qv_unset q)) (qp_values p)
@@ -114,14 +115,19 @@ Definition params_expressible (v : Z) (execute : bool) (p : qparams) : bool :=
         && negb (0 <? qp_serial p) && negb (qp_default_ts p)
       else values_expressible v (qp_values p) && ((3 <=? v) || negb (qp_default_ts p))).
 
+(* a custom payload exists from v4 *)
+Definition payload_expressible (v : Z) (pl : payload_t) : bool := (4 <=? v) || negb (nonempty pl).
+
 Definition expressible (v : Z) (r : request) : bool :=
   match r with
-  | RQuery _ p _ => params_expressible v false p
-  | RExecute _ p _ => params_expressible v true p
-  | RBatch t ss _ sc dts _ _ =>
+  | RQuery _ p pl => params_expressible v false p && payload_expressible v pl
+  | RExecute _ p pl => params_expressible v true p && payload_expressible v pl
+  | RPrepare _ ks pl => ((5 <=? v) || negb (nonempty ks)) && payload_expressible v pl
+  | RBatch t ss _ sc dts _ pl =>
       forallb (fun b => no_names (bs_values b)
                         && ((4 <=? v) || forallb (fun q => negb (qv_unset q)) (bs_values b))) ss
       && ((3 <=? v) || (negb (0 <? sc) && negb dts))
+      && payload_expressible v pl
   | _ => true
   end.
 
@@ -178,3 +184,26 @@ Definition expected_flags (has_comp tracing : bool) (v : Z) (r : request) : Z :=
   + (if tracing then 2 else 0)
   + (if nonempty (payload_of r) then 4 else 0)
   + (if v =? 5 then 16 else 0).
+
+(* ---- side conditions of the frame-level theorems ------------------------------------------------------ *)
+(* stream ids a client may use: 7 bits in v1/v2, 15 bits from v3 *)
+Definition stream_ok (v stream : Z) : Prop := 0 <= stream < (if 3 <=? v then 32768 else 128).
+Definition head_size (v : Z) : Z := if 3 <=? v then 9 else 8.
+
+(* the compressor plugged into the framer is inverted by [decomp], and does not blow a body that passed
+   the 256 MiB check of finish up to 2 GiB (snappy and lz4 expand by a fraction at most) *)
+Definition codec_ok (comp : option (bytes -> option bytes)) (decomp : bytes -> option bytes) : Prop :=
+  match comp with
+  | None => True
+  | Some c => forall x z, c x = Some z -> decomp z = Some x /\ (len x <= K.maxFrameSize -> len z < 2 ^ 31)
+  end.
+
+Definition has_comp (comp : option (bytes -> option bytes)) : bool :=
+  match comp with Some _ => true | None => false end.
+
+(* ---- what an API-level query may ask for in version v (conn.go level) ------------------------------------- *)
+Definition api_expressible (v : Z) (q : query_in) (prepared : option (bytes * list qvalue * bool)) : bool :=
+  (qi_page_size q <? 2 ^ 31)
+  && ((3 <=? v) || negb (qi_default_ts q))
+  && payload_expressible v (qi_payload q)
+  && match prepared with Some (_, vals, _) => values_expressible v vals | None => true end.
